@@ -13,6 +13,7 @@ Inductive c14case :=
 | CDel (p : option pval)                     (* delete { E { $id } } through GraphDatabaseService::delete: [outcome; probe] *)
 | CFrames (info : fstep) (ans qs evs : list fstep)   (* one QUIC connection to a real DiscretEndpoint: [info; answers; queries; events delivered; big allocation; probe] *)
 | CIngest (rights_from mdate : Z)            (* a row with this mdate through add_nodes, then compute_daily_log: [outcome; write probe] *)
+| CRoomDef (m : rmember) (v : jclass)        (* a peer's room definition with one member replaced, add_room_node then restart: [outcome; probe; restarted] *)
 | CObs (stream : N).                         (* streams without a model verdict: [panics; probe] *)
 
 (* outcome codes in observations: 0 Ok, 1 Err, 2 a thread / the call panicked, 3 no answer in time *)
@@ -36,6 +37,7 @@ Definition run_C14 (c : c14case) : list Z :=
   | CDel p => pool_run default_parallelism [delete_outcome p]
   | CFrames info ans qs evs => connection_obs info ans qs evs ++ [1]
   | CIngest rf md => ingest_obs rf md
+  | CRoomDef m v => room_def_obs m v
   | CObs _ => [0; 1]
   end.
 
@@ -195,6 +197,9 @@ Definition spec_C14 (c : c14case) (obs : list Z) : bool :=
           && Z.leb 0 e && Z.leb e (Z.of_nat (List.length evs))
       | _ => false end
   | CIngest _ _ => steps_ok [false] obs
+  | CRoomDef _ _ => match obs with
+                    | [o; p; r] => (Z.eqb o 0 || Z.eqb o 1) && Z.eqb p 1 && Z.eqb r 1
+                    | _ => false end
   | CObs _ => zlist_eqb obs [0; 1]
   end.
 
@@ -214,6 +219,7 @@ Fixpoint nn_nested (c : cfield) : bool :=
 
 (* 5: blank search text; 6: selection paths beyond the engine's parser stack;
    7: nested non-nullable references (each level is compiled twice);
+   11: a peer's user row without `enabled` is stored and the instance cannot start any more;
    8: in an aggregate selection, a WHERE filter written on the selected json value (its name is a
       reference field or only the alias of a selected field) *)
 Definition k5_entity (c : centity) : bool := negb (search_ok c).
@@ -233,6 +239,7 @@ Definition known_C14 (c : c14case) : list Z :=
       | Some ce => flag 7 (k7_entity ce)
       | None => [] end
   | CAgg q => flag 5 (search_blank q) ++ flag 8 (value_filter_on_aggregate q)
+  | CRoomDef m v => flag 11 (negb (restart_succeeds m v))
   | _ => []
   end.
 
